@@ -38,6 +38,9 @@ func GenTables(which string) {
 	if which == "" || which == "C15" {
 		GenTablesC15()
 	}
+	if which == "" || which == "C16" {
+		GenTablesC16()
+	}
 }
 
 func genTablesC03() {
